@@ -6,7 +6,7 @@
           (one action per step of _core.py:856-951); TLC checks NoSilentOverwrite in every state, that
           AllOrNothing / SavedReparses fail ONLY in the named deviations, and emits every behaviour.
           Further TLC runs: the pure AllOrNothing / SavedReparses invariants must produce the known
-          counterexamples; the proposed repairs (Variant = dumpfirst / twophase) are model-checked too.
+          counterexamples; (thorough) the proposed repairs (Variant = dumpfirst / twophase) are model-checked too.
   REPLAY  (spec -> code) every emitted scenario is made real in a scratch directory (real invalid value under a
           typed key, real unserialisable object under Any, OSError raised by a wrapped builtins.open / write at
           the n-th call), save() is called, the wrapped open records the order of file-system effects with a
@@ -508,16 +508,16 @@ def _rest(rep, tier, workers, heap, pool, pending, base):
     cex2 = tlc_checked(rep, "MC_Save", "MC_Save_cex_rep" + SFX, workers=1, heap=heap, timeout=600)
     if cex2.violated != ["InvSavedReparses"]:
         machinery_failure(PID, f"MC_Save_cex_rep: expected SavedReparses to be violated by a name collision, got {cex2.violated} {cex2.errors[:2]}")
-    for cfgname in ("MC_Save_dumpfirst", "MC_Save_twophase"):
+    for cfgname in (("MC_Save_dumpfirst", "MC_Save_twophase") if tier == "thorough" else ()):  # what the proposed repairs guarantee
         fx = tlc_checked(rep, "MC_Save", cfgname, workers=workers, heap=heap, timeout=900)
         if fx.errors or fx.rc != 0:
             machinery_failure(PID, f"{cfgname}: the repaired variant does not satisfy its invariants: {fx.errors[:3]}")
+        rep.extra.setdefault("repairs_model_checked", {})[cfgname] = ("single-file AllOrNothing holds; the main file is never emptied by a bad config"
+                                                                       if cfgname.endswith("dumpfirst") else "AllOrNothing holds in both modes")
     if tier == "thorough":  # non-vacuity: how often TLC took each action of the machine (-coverage, on the quick instance)
         cov = tlc_checked(rep, "MC_Save", "MC_Save_quick" + SFX, workers=workers, heap=heap, timeout=900, coverage=True)
         rep.extra["tlc_coverage"] = {k: v for k, v in cov.coverage.items() if k.startswith("A_") or k == "Init"}
     rep.extra["alg_variant"] = VARIANT
-    rep.extra["repairs_model_checked"] = {"dumpfirst": "single-file AllOrNothing holds; main file never emptied by a bad config",
-                                          "twophase": "AllOrNothing holds in both modes"}
 
     observations = pending.get(timeout=3000)
     pool.close()
